@@ -86,7 +86,7 @@
 //     `a[i:j]` is an opaque value preceded by the entry ("slice", [text with
 //     bounds]) and `*p = v` through an abstract pointer is an effect like a
 //     field assignment; `&T{…}` of abstract type is non-nil and, in trace mode
-//     with the file-level option "trace_new",
+//     with the file-level (or per-function) option "trace_new",
 //     the entry ("new T", ["K=" ++ value, …]) (nested literals flattened to
 //     "K.L=…", values of scalar type rendered, "_" otherwise); a
 //     field of abstract type of a translated struct (`mh.next`) is read as such
@@ -118,7 +118,13 @@
 //     injective rendering of the value, the zero value (`T{}`, `var x T`) is
 //     "", `==` is equality of renderings; `(Option String)` for an interface:
 //     `none` is nil, `some t` a value whose dynamic type prints as `t` —
-//     and methods called on them are opaque calls;
+//     and methods called on them are opaque calls; a key "[]pkg.T" declares the
+//     *slice* type (`"[]net/netip.Prefix": "(List Unit)"`: such a slice is
+//     known by its length only, `len` is the list's length) while T itself
+//     stays abstract; with `"[]pkg.T": "(List String)"` the elements are tokens:
+//     the variable of a range loop over such a slice holds the element's token
+//     and may be passed to a callee listed under "fn" (`f_callee v`), so "the
+//     first element for which the callee says …" is part of the meaning;
 //   - a keyed literal `T{f: v}` / `&T{f: v}` of a translated struct type is a
 //     structure instance (`some …` for `&`), omitted fields are zero; the
 //     given fields are evaluated in the order of the literal; fields of abstract
@@ -237,6 +243,11 @@
 //     a ':' in a generated parameter name is dropped instead of becoming '_';
 //     under "refs" a slice of translatable elements is a `List`, `len(s)` its
 //     length, `s[i]` is `none` (panic) unless 0 ≤ i < len(s), nil slice = [];
+//   - `xs == nil` / `xs != nil` on a list is `xs.isEmpty` / its negation: a nil
+//     slice is the empty list, a non-nil empty slice is not told apart from it;
+//   - inside a range loop a clause of a type switch over a symbolic interface
+//     value may `continue` the loop (`break` there would leave the switch only
+//     and stays outside the subset);
 //   - `len(x)` of anything else is an opaque value parameter;
 //   - the zero value of a slice (a named result) is the empty list;
 //     newDeviceDataError(err, typ), like fmt.Errorf, makes a non-nil error;
@@ -248,7 +259,17 @@
 //     (fields of untranslatable type are not part of the structure, fields not
 //     mentioned get their zero value); &T{…} is `some` of it;
 //   - `defer func() { err = errors.Annotate(err, …) }()` is dropped: it changes
-//     the text of a non-nil error only (nil stays nil).
+//     the text of a non-nil error only (nil stays nil);
+//   - the statements `copy(dst, src)`, `n = copy(dst, src)`, `n := copy(dst, src)`
+//     with dst a variable and both operands lists of the same element type:
+//     dst becomes `goCopy dst src` (its first min(len dst, len src) elements
+//     replaced by those of src, length unchanged) and the result is that
+//     minimum (`goCopyN`).  Lists are values: that dst shares its array with
+//     another slice (`dst := buf[2:]`) is NOT modelled — list dst under "out"
+//     to get its final contents and state the aliasing where it is used;
+//   - "list_slices" (per function): byte slices are lists of integers in this
+//     function even if the spec file has "abstract_bytes", and `xs[lo:hi]` on a
+//     list is take/drop also when the function is traced.
 //
 // Anything else is a translation error: the generated definition is replaced
 // by a marker that makes the Tie theorem fail, i.e. a broken obligation.
@@ -336,6 +357,12 @@ type TrFunc struct {
 	// one function parameter `f_<name>` (per callee) to the arguments of
 	// translatable type: the result depends on those arguments only.
 	Fn []string `json:"fn,omitempty"`
+	// ListSlices: in this function byte slices are lists of integers even when
+	// the spec file has "abstract_bytes", and `xs[lo:hi]` on a list is take/drop
+	// also when the function is traced (instead of an opaque value).
+	ListSlices bool `json:"list_slices,omitempty"`
+	// TraceNew is the file-level option "trace_new" for this function only.
+	TraceNew bool `json:"trace_new,omitempty"`
 }
 
 type trSpecFile struct {
@@ -490,6 +517,9 @@ type translator struct {
 	// symb: the types declared symbolic one by one ("symbolic": {type: Lean type}).
 	symb map[string]string
 	refs bool // spec-file option "refs"
+	// fileAbsBytes: the spec file has "abstract_bytes" (absBytes is switched off
+	// while a function with "list_slices" is translated).
+	fileAbsBytes bool
 }
 
 type funcOut struct {
@@ -565,6 +595,12 @@ func (t *translator) leanTypeC(ty types.Type) string {
 		}
 		return ""
 	case *types.Slice:
+		if n, ok := types.Unalias(u.Elem()).(*types.Named); ok && n.Obj().Pkg() != nil {
+			// a slice type declared symbolic ("[]net/netip.Prefix": "(List Unit)")
+			if s := t.symb["[]"+n.Obj().Pkg().Path()+"."+n.Obj().Name()]; s != "" {
+				return s
+			}
+		}
 		// byte buffers are written through aliases (Read, Unpack, append on a
 		// pooled buffer): they are abstract objects, not list values
 		if b, ok := u.Elem().Underlying().(*types.Basic); ok && b.Kind() == types.Uint8 && t.absBytes {
@@ -737,6 +773,7 @@ type fctx struct {
 	opaqueCalls map[*ast.CallExpr]string
 	nonNil      map[types.Object]bool
 	paramMut    []string // pointer parameters whose fields are assigned (returned after the receiver)
+	elemVars    map[types.Object]string // loop variables over symbolic slices of abstract elements: Lean type
 }
 
 type ex struct {
@@ -889,7 +926,7 @@ func (c *fctx) exprAs(e ast.Expr, to types.Type) ex {
 					}
 					return "(Function.const _ true (" + strings.Join(s, ", ") + "))"
 				})
-				if c.trace && c.t.traceNew {
+				if c.trace && (c.t.traceNew || c.spec.TraceNew) {
 					r.code += "«call:" + c.litEntry(cl) + "»"
 				}
 				return r
@@ -1063,7 +1100,7 @@ func (c *fctx) expr(e ast.Expr) ex {
 				}
 				return "(Function.const _ true (" + strings.Join(s, ", ") + "))"
 			})
-			if c.trace && c.t.traceNew {
+			if c.trace && (c.t.traceNew || c.spec.TraceNew) {
 				r.code += "«call:" + c.litEntry(cl) + "»"
 			}
 			return r
@@ -1144,7 +1181,8 @@ func (c *fctx) expr(e ast.Expr) ex {
 			}
 		}
 	}
-	if se, ok := e.(*ast.SliceExpr); ok && c.trace && !isString(c.typeOf(e)) {
+	if se, ok := e.(*ast.SliceExpr); ok && c.trace && !isString(c.typeOf(e)) &&
+		!(c.spec.ListSlices && strings.HasPrefix(c.t.leanType(c.typeOf(se.X)), "(List")) {
 		// re-slicing (capacity) is beyond the subset: an opaque value; a call
 		// operand is evaluated for the trace, then ("slice", [text with bounds])
 		pre := ""
@@ -1444,6 +1482,11 @@ func (c *fctx) binary(x *ast.BinaryExpr) ex {
 			if x.Op == token.NEQ {
 				m = "isSome"
 			}
+			if strings.HasPrefix(c.t.leanType(tx), "(List") {
+				// lists have no nil: a nil slice is the empty list (a non-nil empty slice is not told apart)
+				m = map[bool]string{false: "isEmpty", true: "isEmpty.not"}[x.Op == token.NEQ]
+				return c.bindN([]ex{a}, func(s []string) string { return "(" + s[0] + ")." + m })
+			}
 			if c.t.leanType(tx) == "" || !(isError(tx) || isPtrStruct(tx) || strings.HasPrefix(c.t.leanType(tx), "(Option")) {
 				fail("nil comparison of %s", c.show(x.X))
 			}
@@ -1731,6 +1774,9 @@ func (c *fctx) call(x *ast.CallExpr) ex {
 		for _, a := range x.Args {
 			if lt := c.t.leanType(c.typeOf(a)); lt != "" {
 				xs, sig = append(xs, c.expr(a)), append(sig, lt)
+			} else if id, ok := a.(*ast.Ident); ok && c.elemVars[c.p.info.Uses[id]] != "" {
+				// the loop variable of a range over a symbolic slice: the element's token
+				xs, sig = append(xs, ex{code: leanIdent(id.Name)}), append(sig, c.elemVars[c.p.info.Uses[id]])
 			}
 		}
 		decl := "(" + name + " : " + strings.Join(append(sig, c.t.valType(c.typeOf(x))), " → ") + ")"
@@ -2284,7 +2330,8 @@ func (c *fctx) stateTuple(vars []string) string {
 // slice: the variables declared outside the loop and assigned inside it (plus
 // the call trace) are the loop state; the body maps a state and an element to
 // `Step.next state'` (also for continue), `Step.brk state'` or `Step.ret r`
-// (a return of the enclosing function).
+// (a return of the enclosing function; a range loop nested in the body passes
+// such a return on to the outer loop as `Step.ret r`).
 func (c *fctx) rangeLoop(x *ast.RangeStmt, rest []ast.Stmt) string {
 	if x.Tok != token.DEFINE && (x.Key != nil || x.Value != nil) {
 		fail("range with assignment to existing variables")
@@ -2300,6 +2347,17 @@ func (c *fctx) rangeLoop(x *ast.RangeStmt, rest []ast.Stmt) string {
 		elT = "(" + c.t.leanType(mp.Key()) + " × " + c.t.leanType(mp.Elem()) + ")"
 	} else {
 		elT = c.t.leanType(sl.Elem())
+		if lt := c.t.leanType(c.typeOf(x.X)); elT == "" && strings.HasPrefix(lt, "(List ") {
+			// a slice type declared symbolic ("[]pkg.T": "(List String)"): the elements
+			// are tokens; the loop variable may be handed to an "fn" callee
+			elT = strings.TrimSuffix(strings.TrimPrefix(lt, "(List "), ")")
+			if id, ok := x.Value.(*ast.Ident); ok && c.p.info.Defs[id] != nil {
+				if c.elemVars == nil {
+					c.elemVars = map[types.Object]string{}
+				}
+				c.elemVars[c.p.info.Defs[id]] = elT
+			}
+		}
 	}
 	// carried variables
 	var vars, varTypes []string
@@ -2339,6 +2397,10 @@ func (c *fctx) rangeLoop(x *ast.RangeStmt, rest []ast.Stmt) string {
 			}
 		case *ast.IncDecStmt:
 			targets = []ast.Expr{s.X}
+		case *ast.CallExpr:
+			if c.isListCopy(s) {
+				targets = []ast.Expr{s.Args[0]} // copy(dst, src) assigns dst
+			}
 		case *ast.FuncLit:
 			return false
 		}
@@ -2417,10 +2479,15 @@ func (c *fctx) rangeLoop(x *ast.RangeStmt, rest []ast.Stmt) string {
 		}
 		loop := fmt.Sprintf("%s (σ := %s) (ρ := %s) %s %s fun st (%s : Int) (%s : %s) =>\n%s", fn, sigma, rho, collCode, c.stateTuple(vars), key, val, elT, indent(destr+mapDestr+body))
 		after := c.stmts(rest)
-		if bodyPartial {
-			return fmt.Sprintf("match %s with\n| none => none\n| some (.inr r) => «ret»r\n| some (.inl st) =>\n%s", loop, indent(destr+after))
+		retR := "«ret»r"
+		if c.loop != nil {
+			// a loop nested in a loop body: a return from inside it leaves the outer loop too
+			retR = "«step»(.ret r)"
 		}
-		return fmt.Sprintf("match %s with\n| .inr r => «ret»r\n| .inl st =>\n%s", loop, indent(destr+after))
+		if bodyPartial {
+			return fmt.Sprintf("match %s with\n| none => none\n| some (.inr r) => %s\n| some (.inl st) =>\n%s", loop, retR, indent(destr+after))
+		}
+		return fmt.Sprintf("match %s with\n| .inr r => %s\n| .inl st =>\n%s", loop, retR, indent(destr+after))
 	})
 }
 
@@ -2597,11 +2664,19 @@ func (c *fctx) stmts(list []ast.Stmt) string {
 			return r
 		}), rest, nil)
 	case *ast.AssignStmt:
+		if len(x.Lhs) == 1 && len(x.Rhs) == 1 && (x.Tok == token.ASSIGN || x.Tok == token.DEFINE) {
+			if call, ok := x.Rhs[0].(*ast.CallExpr); ok && c.isListCopy(call) {
+				return c.copyStmt(x.Lhs[0], call, rest)
+			}
+		}
 		return c.assignStmt(x, rest)
 	case *ast.ExprStmt:
 		call, ok := x.X.(*ast.CallExpr)
 		if !ok {
 			fail("expression statement %s", c.show(x))
+		}
+		if c.isListCopy(call) {
+			return c.copyStmt(nil, call, rest)
 		}
 		if c.matches(c.spec.Ignore, call) {
 			return c.stmts(rest)
@@ -2699,9 +2774,14 @@ func (c *fctx) typeSwitch(x *ast.TypeSwitchStmt, rest []ast.Stmt) string {
 		cc := cl.(*ast.CaseClause)
 		ast.Inspect(cc, func(n ast.Node) bool {
 			if b, ok := n.(*ast.BranchStmt); ok {
+				if b.Tok == token.CONTINUE && b.Label == nil && c.loop != nil {
+					return true // continues the enclosing range loop (a `break` would leave the switch only)
+				}
 				fail("branch statement %s in type switch", b.Tok)
 			}
-			return true
+			_, isLoop := n.(*ast.RangeStmt)
+			_, isFor := n.(*ast.ForStmt)
+			return !isLoop && !isFor
 		})
 		if cc.List == nil {
 			deflt = append(append([]ast.Stmt{}, cc.Body...), rest...)
@@ -2719,6 +2799,36 @@ func (c *fctx) typeSwitch(x *ast.TypeSwitchStmt, rest []ast.Stmt) string {
 		closing++
 	}
 	return out + indent(c.stmts(deflt)) + strings.Repeat(")", closing)
+}
+
+// isListCopy reports whether call is the builtin `copy(dst, src)` with dst a
+// variable and both operands slices of the same translatable element type.
+func (c *fctx) isListCopy(call *ast.CallExpr) bool {
+	id, ok := call.Fun.(*ast.Ident)
+	if !ok || id.Name != "copy" || len(call.Args) != 2 {
+		return false
+	}
+	if _, isB := c.p.info.Uses[id].(*types.Builtin); !isB {
+		return false
+	}
+	_, isVar := call.Args[0].(*ast.Ident)
+	lt := c.t.leanType(c.typeOf(call.Args[0]))
+	return isVar && strings.HasPrefix(lt, "(List") && c.t.leanType(c.typeOf(call.Args[1])) == lt
+}
+
+// copyStmt translates `copy(dst, src)` / `n = copy(dst, src)` / `n := copy(dst, src)`
+// on lists: dst becomes `goCopy dst src` (its first min(len dst, len src)
+// elements replaced by those of src, same length), the result is that minimum.
+func (c *fctx) copyStmt(lhs ast.Expr, call *ast.CallExpr, rest []ast.Stmt) string {
+	d := leanIdent(call.Args[0].(*ast.Ident).Name)
+	return c.withEx(c.expr(call.Args[1]), func(src string) string {
+		n := c.tmp("n")
+		out := fmt.Sprintf("let %s : Int := goCopyN %s %s\nlet %s := goCopy %s %s\n", n, d, src, d, d, src)
+		if lhs == nil {
+			return out + c.stmts(rest)
+		}
+		return out + c.assignCode(lhs, n, func() string { return c.stmts(rest) })
+	})
 }
 
 func hasCall(e ast.Expr) (found bool) {
@@ -3221,6 +3331,11 @@ func (t *translator) translate(sp TrFunc) (fo *funcOut) {
 	}
 	fo = &funcOut{spec: sp, name: sp.Name, busy: true}
 	t.funcs[key] = fo
+	if t.fileAbsBytes {
+		// "list_slices": byte slices are lists in this function only
+		defer func(saved bool) { t.absBytes = saved }(t.absBytes)
+		t.absBytes = !sp.ListSlices
+	}
 	defer func() {
 		fo.busy, fo.done = false, true
 		if r := recover(); r != nil {
@@ -3540,7 +3655,7 @@ func runTranslator(specDir, outDir, harness, modfile string) error {
 	sort.Strings(props)
 	for _, prop := range props {
 		sf := specs[prop]
-		t := &translator{l: l, structs: map[string]*structDef{}, funcs: map[string]*funcOut{}, byDecl: map[string]TrFunc{}, symbolic: sf.Symbolic.All, symb: sf.Symbolic.Types, absBytes: sf.AbstractBytes, traceErrors: sf.TraceErrors, traceNew: sf.TraceNew, refs: sf.Refs}
+		t := &translator{l: l, structs: map[string]*structDef{}, funcs: map[string]*funcOut{}, byDecl: map[string]TrFunc{}, symbolic: sf.Symbolic.All, symb: sf.Symbolic.Types, absBytes: sf.AbstractBytes, fileAbsBytes: sf.AbstractBytes, traceErrors: sf.TraceErrors, traceNew: sf.TraceNew, refs: sf.Refs}
 		sanitizeColon = "_"
 		if sf.Refs {
 			sanitizeColon = ""
